@@ -299,8 +299,11 @@ func c07Scenarios(tier string) []engine.Scenario {
 func init() {
 	engine.Register(&engine.Property{
 		ID: "C07", Level: "model_checking",
-		Rule:        "E1 per PID class (plain, containing ';', leading ';', ';;', binary, one byte, OAuth2-built via the real OAuth2 flow) over login(rm) / restart / steal / probe / logout / password update / crafted cookies; oracle = the oracle's own record of live tokens; classes = cookie classes presented and issue kinds",
-		Units:       func(tier string) []engine.Unit { return e1Units(c07Scenarios(tier)) },
+		Rule: "E1 per PID class (plain, containing ';', leading ';', ';;', binary, one byte, OAuth2-built via the real OAuth2 flow) over login(rm) / restart / steal / probe / logout / password update / crafted cookies; oracle = the oracle's own record of live tokens; classes = cookie classes presented and issue kinds",
+		Units: func(tier string) []engine.Unit {
+			scs := c07Scenarios(tier)
+			return e1Units(append(scs, configVariants(scs[:2], tier, "err500", "nomount")...))
+		},
 		Assumptions: []string{"remember.Middleware wraps the whole application, as the README describes", "bounded depth, 2 accounts, 2 browsers"},
 	})
 }
